@@ -65,6 +65,9 @@ void h_ProcessFile_data(void) {
     QuietMode = True; msg_txt[0] = 'm'; msg_txt[1] = 0; name[0] = 'f'; name[1] = 0; g_exit_code = -1;
     VND(cpu, uchar); VND(seg, uchar); VND(gran, uchar); VND(start, ulong); VND(len, uint); VND(offs, ulong);
     VASSUME(start <= 0xffffffffu && len <= 0xffff && offs <= 0xffffffffu);
+#ifdef VERIF_GRAN
+    gran = VERIF_GRAN;
+#endif
     VASSUME(gran == 1 || gran == 2 || gran == 4);            /* granularities the tools define */
     VND(g_doit, int); VND(g_chunk_ret, int);
     VND(StartAdr, uint); VND(StopAdr, uint); VND(StartHeader, schar); VND(ValidSegment, uchar);
